@@ -873,6 +873,33 @@ class Interp:
                     s2 = o.st.set(recv['bind'], new).event(('call', cal, (old, o.val), e))
                     outs.append(Out('val', UNIT, s2))
                 return outs
+        if cal.rsplit('::', 1)[-1] == 'extend' and 'alloc::vec::Vec<' in cal and len(e['args']) == 1 \
+                and hirq.strip_refs(e['args'][0].get('ty') or '').startswith('core::option::Option<'):
+            # vec.extend(option): a push when the option is Some, nothing otherwise
+            recv = hirq.peel_refs(e['recv'])
+            if recv['k'] == 'Path' and recv.get('res') == 'local':
+                outs = []
+                for o in self.ev(e['args'][0], st):
+                    if o.kind != 'val':
+                        outs.append(o); continue
+                    v = o.val
+                    if v[0] == 'ctor' and v[1] in ('Some', 'None'):
+                        cases = [(v[1], v[2][0] if v[2] else None, o.st)]
+                    else:
+                        kt = o.st.variant_test(v, 'Some', ['Some', 'None'])
+                        cases = []
+                        if kt != 'no':
+                            cases.append(('Some', ('variant', v, 'Some', 0), o.st if kt == 'yes' else o.st.assume(('is', v, 'Some'), True)))
+                        if kt != 'yes':
+                            cases.append(('None', None, o.st if kt == 'no' else o.st.assume(('is', v, 'Some'), False)))
+                    for var, inner, s in cases:
+                        if var == 'Some':
+                            old = s.env.get(recv['bind'], ('unk', 'vec'))
+                            new = ('vec', old[1] + (inner,)) if old[0] == 'vec' else ('vecpush', old, inner)
+                            outs.append(Out('val', UNIT, s.set(recv['bind'], new).event(('call', 'alloc::vec::Vec::<T, A>::push', (old, inner), e))))
+                        else:
+                            outs.append(Out('val', UNIT, s))
+                return outs
         res, abn = self.seq([e['recv']] + e['args'], st)
         outs = []
         for vals, s in res:
@@ -960,6 +987,8 @@ class Interp:
         return ('matches', v, pat_key(p))
 
     def is_variant_pat(self, p):
+        if 'Struct' in (p.get('defkind') or ''):
+            return False
         if p.get('defkind', '').startswith('Ctor') or p.get('defkind') == 'Variant':
             return True
         return self.adt_is_enum(p)
@@ -1016,7 +1045,11 @@ class Interp:
                 if kt == 'maybe':
                     st = st.assume(('is', v, var), True)
             if k == 'PTupleStruct':
-                subs = [('variant', v, var, i) for i in range(len(p['pats']))]
+                if 'Struct' in (p.get('defkind') or '') and not is_var:
+                    # destructuring a tuple struct is the same as reading its numbered fields
+                    subs = [self.read_field(v, str(i), st) for i in range(len(p['pats']))]
+                else:
+                    subs = [('variant', v, var, i) for i in range(len(p['pats']))]
                 r = self.match_seq(p['pats'], subs, st)
             else:
                 subs = [self.read_field(v, f['name'], st) if not is_var else ('vfield', v, var, f['name']) for f in p['fields']]
